@@ -235,3 +235,70 @@ func init() {
 		Run:   func(c *Ctx) { ruleLS(c) },
 	})
 }
+
+func init() {
+	register(&Property{
+		ID: "C01",
+		Explanation: "Decides structural necessary conditions of 'generated parsers accept exactly the language' across table writers (lalr/) and readers (the five committed generated parsers and js's hand-written parse loop): CODEC(parser): every read of the packed table is guarded by 0 <= pos < tmTableLen, -2-action is used as a state only for action < -1, rule tables are indexed only with action >= 0. ENTRY: the i-th exported Parse* starts in state i with a final state that is not an entry state. " +
+			"GUARD(markerfree): RuleLen counts only non-marker symbols. CODEC(optimize), GUARD(usedBase), GUARD(dedupe), GUARD(entry), FIELDCOV(minimize), MUSTPASS(compile-order), MUSTPASS(nonassoc-rewrite): the writers keep the encodings consistent. " +
+			"Not decided: correctness of the LR(0)/LALR construction and of the shift/reduce loop as algorithms; the error-location clause.",
+		Rules: []string{"CODEC(parser)", "ENTRY", "GUARD(markerfree)", "CODEC(optimize)", "GUARD(usedBase)", "GUARD(dedupe)", "GUARD(entry)", "FIELDCOV(minimize)", "MUSTPASS(compile-order)", "MUSTPASS(nonassoc-rewrite)"},
+		Run: func(c *Ctx) {
+			ruleTABLEIDX(c)
+			ruleENTRY(c)
+			ruleMARKERFREE(c)
+			ruleOPTCODEC(c)
+			ruleUSEDBASE(c)
+			ruleDEDUPE(c)
+			ruleENTRYGUARD(c)
+			ruleMINIMIZE(c)
+			ruleCOMPILEORDER(c)
+			rulePRECPLUMBING(c)
+		},
+	})
+	register(&Property{
+		ID: "C02",
+		Explanation: "Decides structural necessary conditions of 'listener events reproduce the derivation' on every case of every committed generated applyRule: STACKIDX: each stack reference stack[len(stack)-K] / stack[len(stack)-A:len(stack)-B] of case i lies inside the tmRuleLen[i] symbols of rule i (inside the prefix for mid-rule nonterminals), ranges are non-empty, fixTrailingWS gets exactly the whole right-hand side. " +
+			"GUARD(markerfree) and LOOPSHAPE(marker-transparent): state markers never count as symbols and never stop a scan of the right-hand side (HasTrailingNulls decides whether trailing whitespace is trimmed). VARIANT(trim-trailing-empty): all trailing empty symbols are trimmed from a node's range. " +
+			"Not decided: that the range is the right sub-range, post-order, node types; list expansion order.",
+		Rules: []string{"STACKIDX", "GUARD(markerfree)", "LOOPSHAPE(marker-transparent)", "VARIANT"},
+		Run: func(c *Ctx) {
+			ruleSTACKIDX(c)
+			ruleMARKERFREE(c)
+			ruleMARKERLOOPS(c)
+			ruleMARKERLOOPSAST(c)
+			ruleRECOVERY(c)
+		},
+	})
+	register(&Property{
+		ID: "C16",
+		Explanation: "Decides structural necessary conditions of 'semantic action references bind to the right symbols': STACKIDX on the code emitted for $-references in every committed applyRule case (slots inside the rule, or inside the prefix for mid-rule actions). GUARD(markerfree): ActionVars.SymRefCount (the stack depth references are computed from) counts only non-marker symbols. " +
+			"LOCKSTEP(reference): ActionVars.resolve reports the position whose stack index it returns (the generator picks the type assertion by position). Not decided: that K is the slot of the named symbol in every expansion.",
+		Rules: []string{"STACKIDX", "GUARD(markerfree)", "LOCKSTEP(reference)"},
+		Run: func(c *Ctx) {
+			ruleSTACKIDX(c)
+			ruleMARKERFREE(c)
+			ruleREFPAIR(c)
+		},
+	})
+	register(&Property{
+		ID: "C19",
+		Explanation: "Decides structural necessary conditions of 'error recovery is safe' on the generated recoverFromError/skipBrokenCode/parse of tm and js (hand-written sibling): VARIANT: every back edge of the recovery search loop follows the removal of the current token from the finite recovery set and is guarded by an end-of-input return; the skip loop fetches a token per iteration; parse resets the error-suppression counter when it is parser state. " +
+			"CODEC(parser): packed-table reads made while simulating reductions (reduceAll, gotoState) are bounds-guarded. Not decided: monotonic offsets, transparency on valid input.",
+		Rules: []string{"VARIANT", "CODEC(parser)"},
+		Run: func(c *Ctx) {
+			ruleRECOVERY(c)
+			ruleTABLEIDX(c)
+		},
+	})
+	register(&Property{
+		ID: "C20",
+		Explanation: "Decides structural necessary conditions of 'parse events form a well-nested tree': VARIANT(flush-after-extend): in recoverFromError the error node is flushed only after its range was extended over pending invalid tokens (otherwise tokens inside the node are reported after it). VARIANT(trim-trailing-empty): every parse loop that trims trailing empty symbols does so in a loop (all of them), so a node never runs into following whitespace/comments that are still pending. " +
+			"STACKIDX: reported ranges are non-empty sub-ranges of the rule. Not decided: the tree builder, nesting under recovery in general.",
+		Rules: []string{"VARIANT", "STACKIDX"},
+		Run: func(c *Ctx) {
+			ruleRECOVERY(c)
+			ruleSTACKIDX(c)
+		},
+	})
+}
